@@ -423,6 +423,10 @@ def gen_c08(rng, fs, i, cfg):
         return {"op": "merge", "file": rng.choice(out), "path": "/m%d" % i, "mode": "a",
                 "inputs": [{"file": f, "path": p} for f, p in ins], "mergebuf": rng.choice([2, 7, 10**6]),
                 "columns": None, "agg": None, "fault": None}
+    if rng.random() < 0.05:
+        f_, p_ = rng.choice(have)
+        if fs.lookup(f_, p_).coll.symmetric:
+            return {"op": "dropmode", "file": f_, "path": p_}
     op = gen_coarsen_op(rng, fs, rng.choice(have), i)
     if ctx.get("bigsrc") and rng.random() < 0.7:
         op["chunksize"] = 1
